@@ -329,6 +329,12 @@ def directed_cases():
     full = [['deliver', 0]] * 6
     for i, p in enumerate(({'dh': '19'}, {'dh': '14', 'pfs': '19', 'proto': 'ah', 'mode': 'tunnel'}, {'dh': '20', 'v6': True, 'rsa': True, 'n': 2})):
         cfg = c09.mk_cfg(p)
+        for e in cfg['protect']:
+            # every integrity algorithm / key length takes part (error texts built from algorithm tables or key lengths)
+            e['integ_a'] = e['integ_b'] = [['sha512'], ['sha1'], ['sha256', 'sha512']][i]
+            e['encr_a'] = e['encr_b'] = [['aes256'], ['aes128'], ['aes128', 'aes256']][i]
+        cfg['ike']['integ_a'] = cfg['ike']['integ_b'] = [['sha512'], ['sha1'], ['sha256']][i]
+        cfg['ike']['prf_a'] = cfg['ike']['prf_b'] = [['sha512'], ['sha1'], ['sha256']][i]
         cfg['psk_a'] = 'Ka+dIrEcTeD0123456789+/AbCd%d' % i
         cfg['psk_b'] = 'Kb/dIrEcTeD9876543210+/ZyXw%d' % i
         for first in 'ab':
